@@ -1,6 +1,7 @@
 import Ekit.Props.C06
 import Ekit.Props.C06HW
 import Ekit.Props.C06Heap
+import Ekit.Props.C06Rev
 open Ekit.Props.C06
 #print axioms c06_clq_linearizable
 #print axioms c06_clq_invariants
@@ -83,3 +84,7 @@ open Ekit.Props.C06
 -- the same statements in the classical Herlihy–Wing form
 #print axioms Ekit.Props.HWForms.c06_cpq_heap_hw_linearizable
 #print axioms Ekit.Props.HWForms.c06_cpq_heap_bag_hw_linearizable
+-- review additions (Ekit/Props/C06Rev.lean)
+#print axioms c06_clq_enqueuers_spin_while_unswung
+#print axioms c06_clq_spin_witness
+#print axioms c06_clq_conservation
